@@ -319,6 +319,8 @@ def _spawn(cfg: str):
     w = _Worker(p)
     hello = w.request("hello", 60.0)
     want = "worker openssl=%d" % (1 if cfg == "openssl" else 0)
+    if hello.startswith("worker import-failed"):
+        return w
     if not hello.startswith(want):
         from lib import Infra
         raise Infra("worker for configuration %s reports %r" % (cfg, hello))
@@ -590,17 +592,25 @@ def _main():
     out = os.fdopen(os.dup(1), "w")
     os.dup2(2, 1)
     sys.stdout = sys.stderr
-    from pycoin.ecdsa.secp256k1 import secp256k1_generator
-    from pycoin.ecdsa.native.secp256k1 import libsecp256k1
-    has_ossl = any("openssl" in c.__module__ and c.__name__ == "Optimizations" for c in type(secp256k1_generator).__mro__)
-    hello = "worker openssl=%d libsecp256k1=%d" % (1 if has_ossl else 0, 1 if libsecp256k1 else 0)
+    import_err = None
+    try:
+        from pycoin.ecdsa.secp256k1 import secp256k1_generator
+        from pycoin.ecdsa.secp256r1 import secp256r1_generator  # noqa: F401
+        from pycoin.ecdsa.native.secp256k1 import libsecp256k1
+        has_ossl = any("openssl" in c.__module__ and c.__name__ == "Optimizations" for c in type(secp256k1_generator).__mro__)
+        hello = "worker openssl=%d libsecp256k1=%d" % (1 if has_ossl else 0, 1 if libsecp256k1 else 0)
+    except Exception as e:  # noqa: BLE001
+        # the generator modules of this configuration cannot even be imported (their constructors run the class's own
+        # raw_mul): a failure of the implementation, not of the infrastructure - every op is answered with the exception
+        import_err = type(e).__name__
+        hello = "worker import-failed %s" % import_err
     for line in sys.stdin:
         line = line.rstrip("\n")
         if not line:
             continue
         tag, _, op = line.partition(" ")
         try:
-            ans = hello if op == "hello" else eval_op(op)
+            ans = hello if op == "hello" else ("err " + import_err if import_err else eval_op(op))
         except BaseException as e:  # noqa: BLE001  (a worker never leaves a request unanswered)
             ans = "err " + type(e).__name__
         out.write("%s %s\n" % (tag, ans.replace("\n", " ")))
